@@ -193,7 +193,7 @@ func (e *Engine) findDFA(haystack []byte) *Match {
 
 		// Use anchored search from prefilter position - O(m) not O(n)!
 		// This is much faster than searching the entire haystack
-		start, end, matched := e.pikevm.SearchAt(haystack, pos)
+		start, end, matched := e.pikevmSearchAt(haystack, pos)
 		if !matched {
 			return nil
 		}
@@ -211,7 +211,7 @@ func (e *Engine) findDFA(haystack []byte) *Match {
 	// The DFA found a match, so the NFA engine finds it too; it is searched from
 	// the beginning: the match may be arbitrarily long, so no start estimate
 	// derived from its end is safe.
-	start, end, matched := e.pikevm.SearchAt(haystack, 0)
+	start, end, matched := e.pikevmSearchAt(haystack, 0)
 	if !matched {
 		return nil
 	}
@@ -252,7 +252,7 @@ func (e *Engine) findAdaptive(haystack []byte) *Match {
 		}
 
 		// Use anchored search from prefilter position - O(m) not O(n)!
-		start, end, matched := e.pikevm.SearchAt(haystack, pos)
+		start, end, matched := e.pikevmSearchAt(haystack, pos)
 		if !matched {
 			return nil
 		}
@@ -268,7 +268,7 @@ func (e *Engine) findAdaptive(haystack []byte) *Match {
 			e.putSearchState(state)
 			// DFA succeeded - get exact match bounds from NFA, searched from the
 			// beginning (a match can be longer than any fixed look-back from its end)
-			start, end, matched := e.pikevm.SearchAt(haystack, 0)
+			start, end, matched := e.pikevmSearchAt(haystack, 0)
 			if !matched {
 				return nil
 			}
@@ -290,7 +290,7 @@ func (e *Engine) findAdaptive(haystack []byte) *Match {
 // This preserves absolute positions for correct anchor handling.
 func (e *Engine) findNFAAt(haystack []byte, at int) *Match {
 	atomic.AddUint64(&e.stats.NFASearches, 1)
-	start, end, matched := e.pikevm.SearchAt(haystack, at)
+	start, end, matched := e.pikevmSearchAt(haystack, at)
 	if !matched {
 		return nil
 	}
@@ -317,7 +317,7 @@ func (e *Engine) findDFAAt(haystack []byte, at int) *Match {
 			return NewMatch(pos, pos+literalLen, haystack)
 		}
 		// Fallback to NFA if LiteralLen not available (e.g., Teddy multi-pattern)
-		start, end, matched := e.pikevm.SearchAt(haystack, at)
+		start, end, matched := e.pikevmSearchAt(haystack, at)
 		if !matched {
 			return nil
 		}
@@ -334,7 +334,7 @@ func (e *Engine) findDFAAt(haystack []byte, at int) *Match {
 
 	// DFA returns end position, but doesn't track start position
 	// Fall back to NFA to get exact match bounds
-	start, end, matched := e.pikevm.SearchAt(haystack, at)
+	start, end, matched := e.pikevmSearchAt(haystack, at)
 	if !matched {
 		return nil
 	}
@@ -351,7 +351,7 @@ func (e *Engine) findAdaptiveAt(haystack []byte, at int) *Match {
 		if pos != -1 {
 			e.putSearchState(state)
 			// DFA succeeded - need to find start position from NFA
-			start, end, matched := e.pikevm.SearchAt(haystack, at)
+			start, end, matched := e.pikevmSearchAt(haystack, at)
 			if matched {
 				return NewMatch(start, end, haystack)
 			}
